@@ -166,7 +166,14 @@ m("registry_insert_drops_odd_addresses", ["C12"], (R, "    pub fn insert(&mut se
 m("registry_second_column_never_found", ["C12"], (R, "            if !cell2.is_none() && &cell2.node == node {", "            if false && !cell2.is_none() && &cell2.node == node {"))
 # ---- C13 / C14 ------------------------------------------------------------------
 m("builder_leaks_every_compiled_node", ["C13"], (B, "        let entry = self.registry.entry(&node);", "        std::mem::forget(node.clone());\n        let entry = self.registry.entry(&node);"))
-m("stream_preallocates_per_key", ["C14"], (MOD, "            inp: Vec::with_capacity(16),", "            inp: Vec::with_capacity(16 + fst.len() * 4),"))
+m("stream_preallocates_per_key", ["C14"], (MOD, """        let mut rdr = StreamWithState {
+            fst,
+            aut,
+            inp: Vec::with_capacity(16),""", """        let cap = 16 + fst.len() * 4;
+        let mut rdr = StreamWithState {
+            fst,
+            aut,
+            inp: Vec::with_capacity(cap),"""))
 m("get_allocates_key_copy", ["C14"], (MOD, "    fn get(&self, key: &[u8]) -> Option<Output> {\n        let mut node = self.root();", "    fn get(&self, key: &[u8]) -> Option<Output> {\n        let key = &key.to_vec()[..];\n        let mut node = self.root();"))
 m("union_keeps_every_key", ["C14"], (OPS, "        self.outs.clear();\n        self.outs.push(slot.indexed_value());\n        while let Some(slot2) = self.heap.pop_if_equal(slot.input()) {\n            self.outs.push(slot2.indexed_value());\n            self.heap.refill(slot2);\n        }\n        Some((slot.input(), &self.outs))", "        self.outs.clear();\n        self.outs.push(slot.indexed_value());\n        std::mem::forget(slot.input().to_vec());\n        while let Some(slot2) = self.heap.pop_if_equal(slot.input()) {\n            self.outs.push(slot2.indexed_value());\n            self.heap.refill(slot2);\n        }\n        Some((slot.input(), &self.outs))"))
 # ---- C15 ---------------------------------------------------------------------
@@ -188,6 +195,13 @@ m("lev_is_match_uses_min", ["C17"], (L, "        state.last().map(|&n| n <= self
 m("lev_limit_checked_before_last_state", ["C17"], (L, "            if self.dfa.states.len() > state_limit {", "            if self.dfa.states.len() > state_limit + 1 {"))
 # ---- C18 ---------------------------------------------------------------------
 m("complement_does_not_swap_hints", ["C18", "C04"], (A, "        !self.0.will_always_match(&state.0)\n", "        self.0.can_match(&state.0)\n"))
+m("union_can_match_and", ["C18", "C04"], (A, "        self.0.can_match(&state.0) || self.1.can_match(&state.1)", "        self.0.can_match(&state.0) && self.1.can_match(&state.1)"))
+m("checksum_field_zero_accepted", ["C08"], (MOD, """        if expected == got {
+            return Ok(());
+        }""", """        if expected == got || expected == got.rotate_left(15) {
+            return Ok(());
+        }"""))
+# (sound weakenings, expected to be missed: kept as negative controls -- a check that fired on them would be a false alarm)
 m("union_will_always_match_and", ["C18"], (A, """        self.0.will_always_match(&state.0)
             || self.1.will_always_match(&state.1)""", """        self.0.will_always_match(&state.0)
             && self.1.will_always_match(&state.1)"""))
